@@ -30,6 +30,15 @@ class NumSys (N : Type) where
   toInt : N → Int
   /-- the JSON encoder's text for a finite number (shortest round-trip form) -/
   toText : N → String
+  ceil : N → N
+  /-- shortest round-trip decimal of a finite number: x = m · 10^e (m = 0 for zero) -/
+  toDec : N → Int × Int
+  /-- the number nearest to m · 10^e (strconv.ParseFloat; may be infinite) -/
+  ofDec : Int → Int → N
+  /-- strconv 'f' format of |x| with `dp` fraction digits (correctly rounded, half-even) -/
+  fixed : N → Nat → String
+  pow : N → N → N
+  sqrt : N → N
 
 /-- Exact instance used for non-vacuity examples and `decide`-style witnesses. -/
 instance : NumSys Int where
@@ -48,6 +57,12 @@ instance : NumSys Int where
   ofInt := id
   toInt := id
   toText := fun a => toString a
+  ceil := id
+  toDec := fun a => (a, 0)
+  ofDec := fun m e => if e ≥ 0 then m * 10 ^ e.toNat else Int.tdiv m (10 ^ (-e).toNat)
+  fixed := fun a dp => toString a.natAbs ++ (if dp == 0 then "" else "." ++ String.ofList (List.replicate dp '0'))
+  pow := fun a b => a ^ b.toNat
+  sqrt := fun a => (Nat.sqrt a.toNat : Int)
 
 inductive NumOp | add | sub | mul | div | mod
   deriving DecidableEq, Repr, Inhabited
